@@ -30,6 +30,7 @@ import os
 import shutil
 import subprocess
 import tempfile
+import time
 from typing import Any, Dict, List, Optional, Tuple
 
 from cryptography.exceptions import InvalidSignature
@@ -1498,7 +1499,24 @@ def plist_match(pats: List[str], s: str) -> bool:
     return pos and not neg
 
 
-def ts_text(t: int, date_only: bool = False) -> str:
+# Zone the process is in while a case runs (POSIX TZ strings with a fixed
+# offset, so that no tz database is needed): name -> hours east of UTC
+ZONES = {'UTC0': 0, 'PST8': -8, 'JST-9': 9, 'XXX-5:30': 5.5}
+_ZONE: List[Optional[str]] = [None]
+
+
+KWCASE_SEEN = [False]
+
+
+def ts_text(t: int, date_only: bool = False, local: bool = False) -> str:
+    """ssh-keygen(1) ALLOWED SIGNERS: YYYYMMDD[Z] or YYYYMMDDHHMM[SS][Z];
+    "interpreted in the system time zone unless suffixed with a Z" """
+
+    if local and _ZONE[0] is not None:
+        dt = datetime.datetime.fromtimestamp(t, datetime.timezone.utc) + \
+            datetime.timedelta(hours=ZONES[_ZONE[0]])
+        return dt.strftime('%Y%m%d%H%M%S')
+
     dt = datetime.datetime.fromtimestamp(t, datetime.timezone.utc)
     return dt.strftime('%Y%m%d' if date_only else '%Y%m%d%H%M%S') + 'Z'
 
@@ -1515,14 +1533,33 @@ def entry_line(entry, keys: Dict[str, RefKey]) -> str:
                         ' ' in val or ',' in val else 'namespaces=' + val)
         elif o == 'va' and entry['va'] is not None and entry['quote']:
             opts.append('valid-after="%s"' % ts_text(
-                entry['va'], entry['va'] % 86400 == 0))
+                entry['va'], entry['va'] % 86400 == 0, entry.get('local')))
         elif o == 'va' and entry['va'] is not None:
             opts.append('valid-after=' + ts_text(entry['va'],
-                                                 entry['va'] % 86400 == 0))
+                                                 entry['va'] % 86400 == 0,
+                                                 entry.get('local')))
         elif o == 'vb' and entry['vb'] is not None:
-            opts.append('valid-before="%s"' % ts_text(entry['vb'])
+            opts.append('valid-before="%s"' % ts_text(
+                entry['vb'], False, entry.get('local'))
                         if entry['quote'] else
-                        'valid-before=' + ts_text(entry['vb']))
+                        'valid-before=' + ts_text(entry['vb'], False,
+                                                  entry.get('local')))
+
+    kw = entry.get('kwcase', 0)
+
+    if kw and opts:
+        KWCASE_SEEN[0] = True
+
+    if kw:
+        # option keywords are case-insensitive (sshsig.c: opt_flag/opt_match
+        # compare with strncasecmp)
+        def recase(o: str) -> str:
+            name, sep, val = o.partition('=')
+            name = name.upper() if kw == 1 else name.title() if kw == 2 \
+                else name[:1].upper() + name[1:]
+            return name + sep + val
+
+        opts = [recase(o) for o in opts]
 
     parts = [','.join(entry['principals'])]
 
@@ -1656,6 +1693,38 @@ def allowed_text(case, keys) -> bytes:
 
 
 def run_sshsig_model(case) -> CaseResult:
+    """The verifier's time zone is part of the case: a Z-suffixed instant
+    means the same everywhere, an unsuffixed one is wall-clock time there"""
+
+    zone = case.get('tz')
+
+    if zone is None:
+        return _run_sshsig_model(case)
+
+    saved = os.environ.get('TZ')
+    os.environ['TZ'] = zone
+    time.tzset()
+    _ZONE[0] = zone
+
+    try:
+        res = _run_sshsig_model(case)
+        extra = {'tz:' + zone}
+        if any(e.get('local') and (e.get('va') is not None or
+                                   e.get('vb') is not None)
+               for e in case['entries'] if e.get('junk') is None):
+            extra.add('tz:local-instants')
+        return CaseResult(sorted(set(res.labels) | extra), res.nontrivial,
+                          res.key)
+    finally:
+        _ZONE[0] = None
+        if saved is None:
+            os.environ.pop('TZ', None)
+        else:
+            os.environ['TZ'] = saved
+        time.tzset()
+
+
+def _run_sshsig_model(case) -> CaseResult:
     keys, cert_blob, keyarg = sshsig_setup(case)
     signer = keys['signer']
     msg = case['msg']
@@ -1663,7 +1732,10 @@ def run_sshsig_model(case) -> CaseResult:
     hname = case['hash']
     labels = {'kt:' + signer.kt, 'hash:' + hname,
               'signer:' + ('cert' if cert_blob else 'key')}
+    KWCASE_SEEN[0] = False
     allowed = allowed_text(case, keys)
+    if KWCASE_SEEN[0]:
+        labels.add('keyword-case')
     data: Any = msg
     kw = {}
 
@@ -1894,7 +1966,12 @@ def sshsig_strategy_for(kts, names, ns_pool, ns_pats, pats, keygen=False):
                     'quote': True if keygen else draw(st.booleans()),
                     'order': draw(st.permutations(['ca', 'ns', 'va', 'vb'])),
                     'comment': draw(pick(['', 'c@h', 'a b'])),
-                    'sep': draw(pick([' ', ' ', '\t', '  ']))}
+                    'sep': draw(pick([' ', ' ', '\t', '  '])),
+                    # instants written as wall-clock time of the verifier's
+                    # zone (no Z); only used when the case sets a zone
+                    'local': False if keygen else
+                    draw(st.integers(0, 2)) == 0,
+                    'kwcase': draw(pick([0, 0, 0, 1, 2, 3]))}
 
         entries = draw(st.lists(st.composite(entry)(), min_size=1,
                                 max_size=4))
@@ -1946,7 +2023,9 @@ def sshsig_strategy_for(kts, names, ns_pool, ns_pats, pats, keygen=False):
                 'entries': entries, 'queries': queries, 'nows': nows,
                 'mask': [draw(st.integers(0, 254)), draw(st.integers(0, 254))],
                 'msg_pos': draw(st.lists(st.integers(0, 1000), max_size=3)),
-                'stride': draw(st.integers(3, 9))}
+                'stride': draw(st.integers(3, 9)),
+                'tz': None if keygen else
+                draw(pick([None, 'UTC0', 'PST8', 'JST-9', 'XXX-5:30']))}
 
     return build()
 
@@ -2469,6 +2548,8 @@ FAMILIES = [
            required={'all': ['signer:cert', 'signer:key', 'auth:key-entry',
                              'auth:cert-ok', 'auth:cert-expired',
                              'auth:cert-not-yet-valid', 'auth:no-entry',
+                             'tz:PST8', 'tz:JST-9', 'tz:local-instants',
+                             'keyword-case',
                              'auth:no-ca-entry', 'edit:bytes',
                              'edit:namespace', 'edit:hash', 'edit:message',
                              'is-hashed', 'junk-lines']}),
